@@ -20,7 +20,8 @@ package genql
 
 //@ func (*Query).exec$1
 //@   modifies cell(any) at &err
-//@   ensures noop[C05,C19,C10]: !panicking() ==> err == old(err)
+//@   modifies cell(any) at &result
+//@   ensures noop[C05,C19,C10]: !panicking() ==> err == old(err) && result == old(result)
 
 //@ func (*Query).exec
 //@   requires q: query != nil
@@ -351,3 +352,18 @@ package genql
 // a CTE under evaluation is not re-entered: its entry is replaced before its definition is built (C10: no unbounded recursion)
 //@ func BuildCte$1
 //@   at-call Prepare assert reentry-guard[C10]: data[id] != old(data[id])
+
+// recover handlers at the API boundary
+
+//@ func recoveredError
+//@   error-is-value
+//@   ensures non-nil[C10,C19]: result != nil
+
+//@ func New$1
+//@   modifies cell(any) at &err
+//@   ensures noop[C19,C10]: !panicking() ==> err == old(err)
+
+//@ func (*Query).Exec$1
+//@   modifies cell(any) at &err
+//@   modifies C|Slice at &result
+//@   ensures noop[C19,C10]: !panicking() ==> err == old(err) && result == old(result)
